@@ -7,9 +7,10 @@ PROPS = "Transparent RefIsC01"
 
 def run(ctx):
     ctx.cov["rule"] = ("states = TLC refinement check Search(cache off) = RouteSpec over the template universe; behaviours = TLC -simulate "
-                       "runs (configuration built from 21 entry templates x 3 host forms, then requests incl. method tokens no configuration "
-                       "can list and decoded paths with a %XX sequence left; at most one step in which the backend that "
-                       "has just served a request is deleted from the mapper) replayed on a real mux with "
+                       "runs (configuration built from 26 entry templates x 3 host forms, then requests incl. method tokens no configuration "
+                       "can list and decoded paths with a %XX sequence left; at most two steps in which the backend that "
+                       "has just served a request is deleted from the table behind the mapper or replaced by a new instance, or a "
+                       "missing one is created) replayed on a real mux with "
                        "cacheSize 0, outcome compared with the contract's prediction after every request; traces = seeded random "
                        "configurations (richer grammar) with their requests, each validated by TLC against the contract; non-trivial = "
                        "distinct (owning-entry features, outcome class) pairs observed on the real code")
@@ -17,20 +18,20 @@ def run(ctx):
                         "route cache off (cacheSize 0); no IP filters; plain HTTP/1.1 requests driven in-process through mux.ServeHTTP",
                         "hosts are names, name:port or [v6]:port",
                         "'a matched backend name that does not exist' read at the time of the request: the mapper may lose a backend between "
-                        "two requests (no reload of the server in between)", "/.well-known/acme-challenge/ paths excluded"]
+                        "two requests, or gain one, or have one replaced by a new instance (no reload of the server in between)", "/.well-known/acme-challenge/ paths excluded"]
     R.run_phases(ctx, (("mc", _mc), ("mbt", _mbt), ("tv", _tv)))
 
 
 def _mc(ctx):
     # the implementation-shaped search (two loops, two flags, early returns) refines the declarative contract
-    r = ctx.tlc_mc("HttpRouter_MC", R.mc_cfg("C01InitQuick", "C01Reqs", 1, False, PROPS), label="refinement, 8 templates, <=2 entries",
+    r = ctx.tlc_mc("HttpRouter_MC", R.mc_cfg("C01InitQuick", "C01Reqs", 1, False, PROPS), label="refinement, 10 templates, <=2 entries",
                    timeout=600)
     ctx.log("refinement (quick universe): %d transitions" % r.generated)
     if not ctx.quick:
-        r = ctx.tlc_mc("HttpRouter_MC", R.mc_cfg("C01InitWide", "C01Reqs", 1, False, PROPS), label="refinement, 20 templates, <=2 entries",
+        r = ctx.tlc_mc("HttpRouter_MC", R.mc_cfg("C01InitWide", "C01Reqs", 1, False, PROPS), label="refinement, 26 templates, <=2 entries",
                        timeout=1500)
         ctx.log("refinement (wide universe): %d transitions" % r.generated)
-        r = ctx.tlc_mc("HttpRouter_MC", R.mc_cfg("C01InitDeep", "C01Reqs", 1, False, PROPS), label="refinement, 8 templates, <=3 entries",
+        r = ctx.tlc_mc("HttpRouter_MC", R.mc_cfg("C01InitDeep", "C01Reqs", 1, False, PROPS), label="refinement, 10 templates, <=3 entries",
                        timeout=1500)
         ctx.log("refinement (deep universe): %d transitions" % r.generated)
 
@@ -48,7 +49,7 @@ def _violation(ctx, cfg, q, exp, got, own, how, replay, gone=None):
 def _mbt(ctx):
     nb = 500 if ctx.quick else 8000
     behs = ctx.tlc_simulate("HttpRouter_Gen", R.gen_cfg("C01Reqs", 6 if ctx.quick else 10, False, "C01Templates", "C01Shells",
-                                                        "C01ServerFilters", "PlansBig", unmaps=1),
+                                                        "C01ServerFilters", "PlansBig", unmaps=2),
                             num=nb, depth=28 if ctx.quick else 40, timeout=900)
     behs = [b for b in behs if b and b[0].get("a") == "cfg" and len(b) > 1]
     if len(behs) < nb // 2:
@@ -72,12 +73,18 @@ def _mbt(ctx):
     ctx.evals(steps)
     ctx.traces(len(behs))
     gone503 = 0      # requests that get 503 because their backend was deleted earlier in the behaviour
+    renewed = 0      # requests served by an instance that was created or put in place of another earlier in the behaviour
     for b in behs:
         cfg = b[0]["cfg"]
-        gone = set()
+        gone, back = set(), set()      # backends deleted (and not created again) / created or replaced so far
         for s in b[1:]:
             if s.get("a") == "unmap":
                 gone.add(s["be"])
+            if s.get("a") == "map":
+                gone.discard(s["be"])
+                back.add(s["be"])
+            if s.get("a") == "remap":
+                back.add(s["be"])
             if s.get("a") == "req":
                 f = R.entry_features(cfg, s.get("own"))
                 late = False
@@ -85,10 +92,14 @@ def _mbt(ctx):
                     i, j = s["own"]["pos"]
                     late = cfg["rules"][i - 1]["paths"][j - 1]["backend"] in gone
                     gone503 += late
+                if s["exp"].get("code") == 0 and s["own"].get("code") == 0:
+                    i, j = s["own"]["pos"]
+                    renewed += cfg["rules"][i - 1]["paths"][j - 1]["backend"] in back
                 ctx.nontrivial({"f": f, "k": R.kind(s["exp"]), "rw": s["exp"].get("path") != s["q"].get("path"), "gone": late})
-    ctx.notes.append({"replay_503_after_backend_deleted": gone503})
-    if gone503 < len(behs) // 50:
-        ctx.inconclusive("C01: only %d generated requests are routed to a backend deleted earlier in the behaviour" % gone503)
+    ctx.notes.append({"replay_503_after_backend_deleted": gone503, "replay_served_by_a_new_instance": renewed})
+    if gone503 < len(behs) // 50 or renewed < len(behs) // 50:
+        ctx.inconclusive("C01: only %d generated requests are routed to a backend deleted earlier in the behaviour, %d to one "
+                         "created or replaced" % (gone503, renewed))
     ctx.sample({"kind": "tlc-behaviour", "entries": [len(r["paths"]) for r in behs[0][0]["cfg"]["rules"]],
                 "steps": [{"q": R.show_req(s["q"]), "exp": R.show(s["exp"])} for s in behs[0][1:4] if s.get("a") == "req"]})
     for m in [x for x in recs if x.get("k") == "mismatch"]:
